@@ -67,7 +67,7 @@ fn braidk_strand_order() {
 /// ParallelFinalize and nothing else is; after a strand left the heap via lone() the flag is
 /// reset and a finalize is accepted again.
 #[kani::proof]
-#[kani::unwind(4)]
+#[kani::unwind(6)]
 fn braidk_strand_heap2() {
     let (mut st, ids, prios) = store_with(2);
     let mut heap: StrandHeap<VSeg> = StrandHeap::new();
